@@ -112,6 +112,7 @@ type Frame struct {
 	frame *frameInfo
 	lineHintHits map[int]int // `hint at "line"` clauses: number of program points matched (ext_linehint.go)
 	lastCallRes []SV // results of the call a `hint after` clause is attached to (instr.go)
+	curVisLoop *loopInfo // the loop whose invariants are being evaluated (spec builtin visited(k), ext_crypto.go)
 }
 
 type retRec struct {
@@ -389,7 +390,7 @@ func (fc *FnCtx) registerComp(key, sort string) {
 func (fc *FnCtx) havocComps(st *State, keys map[string]bool, all bool) {
 	if all {
 		for _, k := range fc.compList {
-			if k == "W" || strings.HasPrefix(k, "G|v|") {
+			if k == "W" || strings.HasPrefix(k, "G|v|") || strings.HasPrefix(k, "G|vis|") {
 				continue // auxiliary variables of the function under verification: no callee can write them
 			}
 			st.heap[k] = fc.fresh("H_"+mangle(k), fc.comps[k])
